@@ -130,11 +130,13 @@ def translations():
         "_corner_2d": ("horizontal", "vertical", [("plate_speed", S, None)]),
         "_corner_2d_grad": ("horizontal", "vertical", [("plate_speed", S, None)]),
     }
+    kspecs = {}
     for pyname, (a, b, rest) in sigs.items():
         for (i, j) in PAIRS:
             spec = Spec(vel, pyname,
                         [("t", S, None), ("x", "arr", (3,)), (a, "const", i), (b, "const", j)] + rest,
                         cname=f"k_{pyname.lstrip('_')}_{i}{j}")
+            kspecs[(pyname, i, j)] = spec
             tr.specs[pyname] = spec
             tr.ensure(pyname, {})
             del tr.specs[pyname]
@@ -165,10 +167,92 @@ def translations():
     tr.specs["to_indices2d_ord"] = spec
     tr.ensure("to_indices2d_ord", {})
     del tr.specs["to_indices2d_ord"]
+
+    # ---- the PUBLIC wrappers simple_shear_2d / cell_2d / corner_2d: the real function is called with
+    #      the letters of the two ordinals (0 1 2 = "X" "Y" "Z", 3 4 5 = "x" "y" "z": 36 letter pairs),
+    #      then the velocity (which = 0) or the gradient (which = 1) callable it returned is applied to
+    #      symbolic (t, x).  While a wrapper runs, the six kernels of pydrex.velocity are replaced by
+    #      dispatchers that turn the call made by the functools.partial object into a call of the
+    #      generated kernel k_<kernel>_<i><j> for the index pair it receives (anything but a pair of
+    #      distinct Python ints 0..2 fails closed).
+    letters6 = ("X", "Y", "Z", "x", "y", "z")
+
+    def letter(o):
+        for k in range(6):
+            if o == k:
+                return letters6[k]
+        raise ValueError("not an axis letter")
+
+    def dispatcher(kname):
+        a_name, b_name, rest = sigs[kname]
+        names = ["t", "x", a_name, b_name] + [r[0] for r in rest]
+
+        def disp(*actual, **kw):
+            if len(actual) > len(names) or set(kw) != set(names[len(actual):]):
+                raise TranslatorUnsupported(f"{kname} called with {len(actual)} positional and keyword arguments {sorted(kw)}")
+            vals = list(actual) + [kw[n] for n in names[len(actual):]]
+            i, j = vals[2], vals[3]
+            if not all(isinstance(v, int) and not isinstance(v, bool) for v in (i, j)) or (i, j) not in PAIRS:
+                raise TranslatorUnsupported(f"{kname} called with the index pair ({i!r}, {j!r})")
+            spec = kspecs[(kname, i, j)]
+            tr.specs[kname] = spec
+            try:
+                return tr._stub(spec)(*vals)
+            finally:
+                del tr.specs[kname]
+        return disp
+
+    def mk_wrap(flow, which, nparams):
+        real_wrapper = vel.__dict__[flow]
+
+        def wrap(horizontal, vertical, *rest):
+            ps, (t, x) = rest[:nparams], rest[nparams:]
+            hl, vl = letter(horizontal), letter(vertical)
+            saved = {k: vel.__dict__[k] for k in sigs}
+            for k in sigs:
+                vel.__dict__[k] = dispatcher(k)
+            try:
+                pair = real_wrapper(hl, vl, *ps)
+                if not (isinstance(pair, tuple) and len(pair) == 2 and all(callable(c) for c in pair)):
+                    raise TranslatorUnsupported(f"{flow} does not return a pair of callables")
+                return pair[which](t, x)
+            finally:
+                for k, v in saved.items():
+                    vel.__dict__[k] = v
+        return wrap
+
+    wrappers = {"simple_shear_2d": [("strain_rate", S, None)],
+                "cell_2d": [("velocity_edge", S, None), ("edge_length", S, None)],
+                "corner_2d": [("plate_speed", S, None)]}
+    for flow, params in wrappers.items():
+        variants = [("", params)]
+        if flow == "cell_2d":
+            variants.append(("_default", params[:1]))         # edge_length left at its default
+        for tag, pp in variants:
+            for which, suffix in ((0, "u"), (1, "L")):
+                name = f"{flow}_wrap_{suffix}{tag}"
+                ad.__dict__[name] = mk_wrap(flow, which, len(pp))
+                spec = Spec(ad, name, [("horizontal", "enum", None), ("vertical", "enum", None)] + pp
+                            + [("t", S, None), ("x", "arr", (3,))], cname="k_" + name)
+                tr.specs[name] = spec
+                tr.ensure(name, {})
+                del tr.specs[name]
     tr.module = vel
     out.append(("Gen_velocity", tr, vel.__file__))
 
     # ---- strain_increment over the oracle
+    tr2, _ = utils_translation()
+    out.append(("Gen_velocity_utils", tr2, utils.__file__))
+    return out
+
+
+def utils_translation():
+    """(Translation, Spec) of `strain_increment` over the eigenvalue oracle; also used by
+    specs_pathlines.py, whose traced event closure keeps `_utils.strain_increment(..)` as a call
+    of the generated k_strain_increment."""
+    import pydrex.utils as utils
+
+    S = "scalar"
     tr2 = Translation(utils, [])
     tr2.proxy = UtilsProxy()
     real_si = utils.__dict__["strain_increment"]
@@ -192,5 +276,4 @@ def translations():
         del tr2.specs["strain_increment_oracle"]
     finally:
         del utils.__dict__["strain_increment_oracle"]
-    out.append(("Gen_velocity_utils", tr2, utils.__file__))
-    return out
+    return tr2, spec
